@@ -27,7 +27,7 @@ type C17Params struct {
 	Plan    simrt.Plan `json:"plan"`
 }
 
-var c17Lengths = []int{1, 100, 4096, 65534, 65535, 65536, 65537, 70000, 262144, 1048576}
+var c17Lengths = []int{1, 100, 4096, 65534, 65535, 65536, 65537, 70000, 262144, 1048576, 9437184}
 
 var c17Carriers = []string{
 	"ra-entry|generate", "ra-entry|generate-stdin", "ra-entry|format", "ra-entry|update",
@@ -35,6 +35,7 @@ var c17Carriers = []string{
 	"ra-block-entry|generate", "ra-comment|generate", "ra-comment|generate-stdin", "ra-comment|update", "ra-comment|format",
 	"include-entry|generate", "include-entry-pairs|generate", "include-except-F|generate", "include-except-X|generate",
 	"yaml-payload|renumber", "conf-line|copyright", "rules-line|update",
+	"conf-many-lines|copyright", // the same number of bytes as very many short lines: the size of the file, not of a line
 }
 
 func c17Cells(tier string) []string {
@@ -43,6 +44,12 @@ func c17Cells(tier string) []string {
 		for _, l := range c17Lengths {
 			if l > 262144 && !(strings.HasPrefix(c, "ra-comment") || strings.HasPrefix(c, "yaml") || strings.HasPrefix(c, "conf") || strings.HasPrefix(c, "rules-line") || strings.HasPrefix(c, "include-except-X")) {
 				continue // regex entries are capped (a 1 MiB literal makes the regex library itself slow)
+			}
+			if l > 1048576 && !(strings.HasPrefix(c, "yaml") || strings.HasPrefix(c, "conf") || strings.HasPrefix(c, "rules-line")) {
+				continue // 9 MiB: only the rewriters of whole rules / test files
+			}
+			if strings.HasPrefix(c, "conf-many-lines") && l < 65536 {
+				continue
 			}
 			for _, pos := range []string{"first", "middle", "last", "only"} {
 				for _, nl := range []string{"nl", "nonl"} {
@@ -217,6 +224,31 @@ func c17Build(p *C17Params) *c17Built {
 		}
 		b.Lines = exp
 		b.LongLine = "SecRule ARGS \"@rx " + plain + "\" \\"
+	case "conf-many-lines":
+		unit := "# filler filler"
+		k := p.L / (len(unit) + 1)
+		if k < 2 {
+			k = 2
+		}
+		manyMacro := Rep(unit+"\n", k-1) + unit
+		var lm, exp []string
+		for _, it := range place(short, "\x01", p.Pos) {
+			if it == "\x01" {
+				lm = append(lm, manyMacro)
+				for j := 0; j < k; j++ {
+					exp = append(exp, unit)
+				}
+				continue
+			}
+			lm = append(lm, "# OWASP CRS ver.3.0.0", "# note "+it)
+			exp = append(exp, "# OWASP CRS ver.4.5.0", "# note "+it)
+		}
+		// a marker at both ends of the file, whatever the position of the filler
+		lm = append(append([]string{"# OWASP CRS ver.3.0.0"}, lm...), "SecComponentSignature \"OWASP_CRS/3.0.0\"")
+		exp = append(append([]string{"# OWASP CRS ver.4.5.0"}, exp...), "SecComponentSignature \"OWASP_CRS/4.5.0\"")
+		w.Files["crs/rules/REQUEST-950-X.conf"] = Data{Text: eof(lm), Macro: true}
+		b.Target = "crs/rules/REQUEST-950-X.conf"
+		b.Lines = exp
 	case "rules-line":
 		// a long line elsewhere in the rules file that update rewrites
 		var lm, lp []string
@@ -383,7 +415,7 @@ func evalC17(sc *Scenario, sim *Sim) ([]Violation, bool, string) {
 func init() {
 	register(&Property{
 		ID: "C17", Level: "fault_enumeration",
-		Rule: "cells = carrier/command in {entry in a rule file (generate, generate -, format, update), entry inside an assemble block, comment line (generate, format), entry in an include file, include with suffix pairs, include-except include file, exclude file, test payload line (renumber-tests), rule line in a .conf (update-copyright), comment line in the rules file (update)} x line length in {1, 100, 4096, 65534, 65535, 65536, 65537, 70000, 262144, 1048576 (regex entries capped at 262144; the exclude-file line is only compared, never compiled, and goes up to 1 MiB)} x position {first, middle, last, the only line} x final newline {yes, no}; every cell is enumerated in every run with seeded short lines around the long one and a seeded schedule. Oracle: exit != 0 (loud), or complete: generate / update - every entry of the file, before and after the long line and the long one itself, is matched by the produced regex (and entries listed after the long line of an exclude file stay excluded); rewriters - the rewritten file has every line of a complete rewrite, the long line byte-identical. Non-trivial = the line is at least 65534 bytes long; distinct = distinct cells.",
+		Rule: "cells = carrier/command in {entry in a rule file (generate, generate -, format, update), entry inside an assemble block, comment line (generate, format), entry in an include file, include with suffix pairs, include-except include file, exclude file, test payload line (renumber-tests), rule line in a .conf (update-copyright), comment line in the rules file (update)} x line length in {1, 100, 4096, 65534, 65535, 65536, 65537, 70000, 262144, 1048576, 9437184 (regex entries capped at 262144; the exclude-file line is only compared, never compiled, and goes up to 1 MiB; 9 MiB only for the rewriters of test and rules files; for update-copyright the same byte counts also as very many short lines)} x position {first, middle, last, the only line} x final newline {yes, no}; every cell is enumerated in every run with seeded short lines around the long one and a seeded schedule. Oracle: exit != 0 (loud), or complete: generate / update - every entry of the file, before and after the long line and the long one itself, is matched by the produced regex (and entries listed after the long line of an exclude file stay excluded); rewriters - the rewritten file has every line of a complete rewrite, the long line byte-identical. Non-trivial = the line is at least 65534 bytes long; distinct = distinct cells.",
 		Gen:  genC17, Eval: evalC17,
 		Cells: c17Cells,
 		ChecksPerCell: func(tier string) int {
